@@ -3,7 +3,7 @@ Driver entry for property C15: one request payload in, one canonical response li
 
   q n=<n> bonds=<a1-a2:btype:stereo:label:forder,...|->
       → bfs=<start 0>;<start 1>;…  (items v:d)   dir=<bond 0 a1→a2>;<bond 0 a2→a1>;<bond 1 …  (items v:d, `err` when
-        the direction is not a neighbour)   ring=<0|1 per bond>   nb=<neighbours per atom>   bw=<bond indices per atom>
+        the direction is not a neighbour)   ring=<0|1 per bond>  ringr=<the same for a bond object with the ends swapped>   nb=<neighbours per atom>   bw=<bond indices per atom>
         val=<p/q per atom>
   m P=<atoms>;<bonds> G=<atoms>;<bonds>     atoms: element:isotope:stereo,…   (isotope `-` = None)
       → embeddings (model order) as i.j.k|…  or `err:pattern-bond-type`
@@ -81,10 +81,11 @@ def query (n : Nat) (bonds : List (Bond DEdge)) : String :=
     | none => "err"
   let dirS := ";".intercalate (bonds.flatMap (fun b => [dirOne b.a1 b.a2, dirOne b.a2 b.a1]))
   let ringS := "".intercalate (bonds.map (fun b => if inRing adj n b.a1 b.a2 then "1" else "0"))
+  let ringR := "".intercalate (bonds.map (fun b => if inRing adj n b.a2 b.a1 then "1" else "0"))
   let nbS := ";".intercalate (starts.map (fun u => showNats (neighbors bonds u)))
   let bwS := ";".intercalate (starts.map (fun u => showNats ((bondsWith bonds u).map (·.attr.idx))))
   let valS := ";".intercalate (starts.map (fun u => showRat (valence order bonds u)))
-  s!"bfs={bfsS} dir={dirS} ring={ringS} nb={nbS} bw={bwS} val={valS}"
+  s!"bfs={bfsS} dir={dirS} ring={ringS} ringr={ringR} nb={nbS} bw={bwS} val={valS}"
 
 def parseGraph? (s : String) : Option (LGraph NodeA EdgeA) :=
   match s.splitOn ";" with
